@@ -75,7 +75,8 @@ OptAlt(B, S, es) ==
       alts == [k \in 1..n |-> Rewrite(B, S, es[k])]
       fs == [k \in 1..n |-> First(B, S, es[k], {})]
       allConsume == IF RewriteNullable THEN fs[n].consumes ELSE \A k \in 1..n : fs[k].consumes
-      inter == [k \in 1..n |-> \E j \in (k + 1)..n : fs[k].s \cap fs[j].s # {}]
+      \* an alternative that cannot start with any character (an inverted range) is never selected by a switch: it stays ordered
+      inter == [k \in 1..n |-> fs[k].s = {} \/ \E j \in (k + 1)..n : fs[k].s \cap fs[j].s # {}]
       nInter == Cardinality({k \in 1..n : inter[k]})
   IN IF ~allConsume \/ 2 + nInter >= n THEN AltE(alts)
      ELSE LET ordered == SelectSeq([k \in 1..n |-> [i |-> k]], LAMBDA x : inter[x.i])
@@ -120,7 +121,7 @@ WalkAlt(B, S, e, st, rw) ==
       fs == [k \in 1..n |-> W.rs[k].s]
       consumes == \A k \in 1..n : W.rs[k].c
       all == UNION {fs[k] : k \in 1..n}
-      inter == [k \in 1..n |-> \E j \in (k + 1)..n : fs[k] \cap fs[j] # {}]
+      inter == [k \in 1..n |-> fs[k] = {} \/ \E j \in (k + 1)..n : fs[k] \cap fs[j] # {}]
       nInter == Cardinality({k \in 1..n : inter[k]})
       keep == [c |-> consumes, s |-> all, e |-> AltE(alts), st |-> W.st]
   IN IF ~rw \/ ~consumes \/ 2 + nInter >= n THEN keep
